@@ -1,3 +1,257 @@
+/-
+C02 — floating-point arithmetic and conversions are bit-exact.
+
+Property theorems only (definitions and helper lemmas live in Spec/FpuSpec, Spec/FpC11Spec, Model/FpMachine,
+Model/FpCodegen and Lemmas/Fp*.lean).
+
+What is proved, and relative to what.  The *results* of SSE/x87 instructions are not formalised; they are the fields of an
+abstract `F : FpuSpec` whose `Prop` fields are the Intel-SDM contracts (Spec/FpuSpec.lean).  Every theorem below is for
+every such `F`, every machine state and every operand value.  What is logic — which instruction is selected, in which
+operand order, through which register / stack slot of which width and signedness, which `setcc`/`jcc` combination reads
+the flags, which bit the sign mask flips, which immediates a constant is built from — is proved completely, over the
+cast table and `get_common_type` as *regenerated from /repo* (Gen/CastTableGen, Gen/CommonTypeGen) and the hand model
+Model/FpCodegen (tied to `chibicc -S` by text on every run).  `FpuSpec` is satisfiable (Lemmas/FpToy.lean); the host
+CPU is validated against the same contracts on every run (checklib/C02.py).
+
+Open (kept as `_Statement`, with kernel-checked witnesses in Findings/C02.lean):
+  * `C02_select_Statement`: fails for unsigned long → float at ≥ 2^63 (signed `cvtsi2ssq`) and for floating → unsigned
+    long with integral part ≥ 2^63 (signed truncation); proved outside these regions (`C02_select_partial`), the two
+    branchy cells unsigned long → double / long double at ≥ 2^63 separately (`C02_u64f64`, `C02_u64f80_machine`).
+  * floating constants: `C02_const_*` show the immediates are the datum of `(T)fval` where `fval` is the long double
+    `strtold` returned; that this is the *correctly rounded* value of the spelling fails (double rounding).
+-/
+import ChibiVerif.Lemmas.FpOpLemmas
+import ChibiVerif.Lemmas.FpToy
+
 namespace ChibiVerif.Props.C02
-theorem C02_placeholder : True := trivial
+open ChibiVerif.Fp ChibiVerif.Asm ChibiVerif.X86 ChibiVerif.Spec.Fpu ChibiVerif.FpCodegen ChibiVerif.Spec.FpC11
+open ChibiVerif.Spec.IntSpec ChibiVerif.Gen.CommonType ChibiVerif.Gen.CastTable
+
+/-! ## usual arithmetic conversions -/
+
+set_option maxRecDepth 4096 in
+/-- **C02 (rank).**  For all 12×12 pairs of arithmetic types, `get_common_type` (as regenerated from type.c) yields the
+    common real type of C11 6.3.1.8: long double if either operand is, else double, else float, else the integer rules. -/
+theorem C02_rank : ∀ a ∈ ATy.all, ∀ b ∈ ATy.all,
+    FpCodegen.commonType (descr a) (descr b) = some (descr (usualArith a b)) := by decide
+
+/-- the operand of unary minus is promoted (`get_common_type(ty_int, ty)`): floating types are unchanged -/
+theorem C02_rank_unary : ∀ a ∈ ATy.all, FpCodegen.commonType ty_int (descr a) = some (descr (promote a)) := by decide
+
+/-! ## comparison flags -/
+
+/-- **C02 (flags: SSE and x87 comparison paths).**  Let `r` be the relation of the source operands `a ? b`.  After
+    parse.c's exchange of the operands of `>`/`>=` and the compare instruction (`ucomis* %xmm0, %xmm1` with the node's lhs in
+    %xmm0; `fcomip` with the node's rhs in %st(0)) the flags are those of the node's rhs ? lhs.  Then the `setcc` lines
+    the operator selects, followed by `and $1, %al; movzb %al, %rax` (SSE) or `movzb %al, %rax` (x87), leave in %rax the
+    value C11 / IEC 60559 give `a OP b`: 1 or 0, every comparison with a NaN (`r = un`) false except `!=`. -/
+theorem C02_flags (F : FpuSpec) (op : SrcOp) (c : CmpOp) (hc : SrcOp.cmpOp op = some c) (r : Rel) (s : FState) :
+    (∃ s', Fp.run F (instrsOf (setccLines op.node.1 ++
+                [ins2 "and" (.i 1) (.r "%al"), ins2 "movzb" (.r "%al") (.r "%rax")]))
+            (s.setRel (if op.node.2 then r else r.swap)) = some s' ∧ s'.x.get .rax = b2bv (c.holds r)) ∧
+    (∃ s', Fp.run F (instrsOf (setccLines op.node.1 ++ [ins2 "movzb" (.r "%al") (.r "%rax")]))
+            (s.setRel (if op.node.2 then r else r.swap)) = some s' ∧ s'.x.get .rax = b2bv (c.holds r)) := by
+  have hcmp : op.node.1.isCmp = true := by cases op <;> simp [SrcOp.cmpOp] at hc <;> rfl
+  have hval : op.node.1.cmpOp.holds (if op.node.2 then r else r.swap).swap = c.holds r := by
+    cases op <;> simp [SrcOp.cmpOp] at hc <;> subst hc <;> cases r <;> rfl
+  constructor
+  · obtain ⟨s', h1, h2⟩ := sse_tail F op.node.1 hcmp (if op.node.2 then r else r.swap) s
+    exact ⟨s', h1, by rw [h2, hval]⟩
+  · obtain ⟨s', h1, h2⟩ := x87_tail F op.node.1 hcmp (if op.node.2 then r else r.swap) s
+    exact ⟨s', h1, by rw [h2, hval]⟩
+
+/-- **C02 (flags: truth tests).**  `cmp_zero` leaves the flags of the relation `r` of `e` to zero; its tail
+    `sete %al; setnp %dl; and %dl, %al; xor $1, %al` followed by
+    (1) `sete %al; movzx %al, %rax` yields `!e`, (2) `setne %al; movzx %al, %eax` yields `(_Bool)e`,
+    (3) `je` is taken exactly when `e` is false and `jne` exactly when it is true — where `e` is true unless it compares
+    equal to zero: a NaN (`r = un`) is true, −0.0 (`r = eq`) is false. -/
+theorem C02_flags_truth (F : FpuSpec) (r : Rel) (s : FState) (l : String) :
+    (∃ s', Fp.run F (instrsOf (cmpZeroTail ++ [ins1 "sete" (.r "%al"), ins2 "movzx" (.r "%al") (.r "%rax")]))
+        (s.setRel r) = some s' ∧ s'.x.get .rax = b2bv (!truth r)) ∧
+    (∃ s', Fp.run F (instrsOf (cmpZeroTail ++ [ins1 "setne" (.r "%al"), ins2 "movzx" (.r "%al") (.r "%eax")]))
+        (s.setRel r) = some s' ∧ s'.x.get .rax = b2bv (truth r)) ∧
+    (∃ s', Fp.run F (instrsOf cmpZeroTail) (s.setRel r) = some s' ∧ s'.x.flagsValid = true ∧
+        jumpOf ⟨"je", [.s l]⟩ s' = some (true, !truth r, l) ∧ jumpOf ⟨"jne", [.s l]⟩ s' = some (true, truth r, l)) := by
+  refine ⟨?_, ?_, ?_⟩
+  · obtain ⟨s', h1, h2, _⟩ := truth_not F r s; exact ⟨s', h1, h2⟩
+  · obtain ⟨s', h1, h2, _⟩ := truth_bool F r s; exact ⟨s', h1, h2⟩
+  · obtain ⟨s', h1, h2, h3, h4, _⟩ := truth_jcc F r s l; exact ⟨s', h1, h4, h2, h3⟩
+
+/-! ## comparisons, arithmetic, negation and truth on values -/
+
+/-- **C02 (comparison of doubles).**  With the operands of `a OP b` where `gen_expr` puts them (node lhs in %xmm0, node rhs
+    in %xmm1, after the exchange for `>`/`>=`), the TY_DOUBLE arm leaves the IEC 60559 answer for the denoted values. -/
+theorem C02_compare_f64 (F : FpuSpec) (op : SrcOp) (c : CmpOp) (hc : SrcOp.cmpOp op = some c) (a b : BitVec 64) (s : FState)
+    (h0 : s.xmm0 = if op.node.2 then b else a) (h1 : s.xmm1 = if op.node.2 then a else b) :
+    ∃ s', Fp.run F (instrsOf (sseOp false op.node.1)) s = some s' ∧
+      s'.x.get .rax = b2bv (c.holds (Val.cmp (F.val64 a) (F.val64 b))) := by
+  have hcmp : op.node.1.isCmp = true := by cases op <;> simp [SrcOp.cmpOp] at hc <;> rfl
+  obtain ⟨s', hr, hx⟩ := cmp_f64 F op.node.1 hcmp s
+  refine ⟨s', hr, ?_⟩
+  rw [hx, h0, h1, ← srcop_node op c hc (F.val64 a) (F.val64 b)]
+  cases op.node.2 <;> rfl
+
+theorem C02_compare_f32 (F : FpuSpec) (op : SrcOp) (c : CmpOp) (hc : SrcOp.cmpOp op = some c) (a b : BitVec 32) (s : FState)
+    (h0 : s.xmm0.setWidth 32 = if op.node.2 then b else a) (h1 : s.xmm1.setWidth 32 = if op.node.2 then a else b) :
+    ∃ s', Fp.run F (instrsOf (sseOp true op.node.1)) s = some s' ∧
+      s'.x.get .rax = b2bv (c.holds (Val.cmp (F.val32 a) (F.val32 b))) := by
+  have hcmp : op.node.1.isCmp = true := by cases op <;> simp [SrcOp.cmpOp] at hc <;> rfl
+  obtain ⟨s', hr, hx⟩ := cmp_f32 F op.node.1 hcmp s
+  refine ⟨s', hr, ?_⟩
+  rw [hx, h0, h1, ← srcop_node op c hc (F.val32 a) (F.val32 b)]
+  cases op.node.2 <;> rfl
+
+/-- long double: node lhs in %st(1), node rhs in %st(0); both are popped -/
+theorem C02_compare_f80 (F : FpuSpec) (op : SrcOp) (c : CmpOp) (hc : SrcOp.cmpOp op = some c) (a b : BitVec 80) (s : FState)
+    (rest : List (BitVec 80))
+    (h : s.st = (if op.node.2 then a else b) :: (if op.node.2 then b else a) :: rest) :
+    ∃ s', Fp.run F (instrsOf (x87Op op.node.1)) s = some s' ∧
+      s'.x.get .rax = b2bv (c.holds (Val.cmp (F.val80 a) (F.val80 b))) := by
+  have hcmp : op.node.1.isCmp = true := by cases op <;> simp [SrcOp.cmpOp] at hc <;> rfl
+  obtain ⟨s', hr, hx⟩ := cmp_f80 F op.node.1 hcmp s _ _ rest h
+  refine ⟨s', hr, ?_⟩
+  rw [hx, ← srcop_node op c hc (F.val80 a) (F.val80 b)]
+  cases op.node.2 <;> rfl
+
+/-- **C02 (arithmetic: instruction and operand order).**  `a OP b` on float/double computes `F.OPs* a b` with `a` as the
+    destination operand (first source), on long double `F.fOP cw a b` with `a` in %st(1): `a − b`, `a ÷ b`, not the reverse. -/
+theorem C02_arith (F : FpuSpec) (op : FOp) (hop : op.isCmp = false) (s : FState) :
+    (∃ s', Fp.run F (instrsOf (sseOp true op)) s = some s' ∧
+      s'.xmm0.setWidth 32 = sseArith32 F op (s.xmm0.setWidth 32) (s.xmm1.setWidth 32) ∧ s'.st = s.st ∧ s'.cw = s.cw) ∧
+    (∃ s', Fp.run F (instrsOf (sseOp false op)) s = some s' ∧
+      s'.xmm0 = sseArith64 F op s.xmm0 s.xmm1 ∧ s'.st = s.st ∧ s'.cw = s.cw) ∧
+    (∀ l r rest, s.st = r :: l :: rest →
+      ∃ s', Fp.run F (instrsOf (x87Op op)) s = some s' ∧ s'.st = x87Arith F s.cw op l r :: rest ∧ s'.cw = s.cw) := by
+  refine ⟨?_, ?_, ?_⟩
+  · obtain ⟨s', h1, h2, h3, h4, _⟩ := arith_f32 F op hop s; exact ⟨s', h1, h2, h3, h4⟩
+  · obtain ⟨s', h1, h2, h3, h4, _⟩ := arith_f64 F op hop s; exact ⟨s', h1, h2, h3, h4⟩
+  · intro l r rest h
+    obtain ⟨s', h1, h2, h3, _⟩ := arith_f80 F op hop s l r rest h; exact ⟨s', h1, h2, h3⟩
+
+/-- `xor` with `1 << (n−1)` complements the top bit and leaves every other bit alone -/
+theorem C02_neg_bits (n : Nat) (b : BitVec (n + 1)) (i : Nat) :
+    (b ^^^ (1#(n + 1) <<< n)).getLsbD i = (if i = n then !b.getLsbD i else b.getLsbD i) := by
+  by_cases h : i = n
+  · subst h; simp
+  · by_cases h2 : i < n
+    · simp [h, h2, BitVec.getLsbD_shiftLeft]
+    · have h3 : ¬ i < n + 1 := by omega
+      simp [h, h2, h3, BitVec.getLsbD_shiftLeft]
+
+/-- **C02 (negation).**  `-e`: `mov $1, %rax; shl $31|$63, %rax; movq %rax, %xmm1; xorps|xorpd %xmm1, %xmm0` complements
+    exactly the sign bit of the float / double (so −0.0, infinities and NaN payloads are negated as IEC 60559 `negate`);
+    `fchs` does the same to the long double by contract. -/
+theorem C02_neg (F : FpuSpec) (s : FState) :
+    (∃ s', Fp.run F (instrsOf (negLines ty_float)) s = some s' ∧
+      s'.xmm0.setWidth 32 = s.xmm0.setWidth 32 ^^^ (1#32 <<< 31) ∧ s'.st = s.st ∧ s'.cw = s.cw) ∧
+    (∃ s', Fp.run F (instrsOf (negLines ty_double)) s = some s' ∧
+      s'.xmm0 = s.xmm0 ^^^ (1#64 <<< 63) ∧ s'.st = s.st ∧ s'.cw = s.cw) ∧
+    (∀ v rest, s.st = v :: rest →
+      ∃ s', Fp.run F (instrsOf (negLines ty_ldouble)) s = some s' ∧ s'.st = (v ^^^ (1#80 <<< 79)) :: rest ∧ s'.cw = s.cw) := by
+  refine ⟨?_, ?_, ?_⟩
+  · obtain ⟨s', h1, h2, h3, h4, _⟩ := neg_f32 F s; exact ⟨s', h1, h2, h3, h4⟩
+  · obtain ⟨s', h1, h2, h3, h4, _⟩ := neg_f64 F s; exact ⟨s', h1, h2, h3, h4⟩
+  · intro v rest h
+    obtain ⟨s', h1, h2, h3, _⟩ := neg_f80 F s v rest h; exact ⟨s', h1, h2, h3⟩
+
+/-- **C02 (truth of a value).**  `!e` is 1 exactly for the two zeros (0 for a NaN), and after `cmp_zero(ty)` the branch
+    `je` (used by `if`, `?:`, `&&`, `for`/`while`) is taken exactly when `e` is a zero, `jne` (`||`, `do`) exactly when it is not. -/
+theorem C02_truth (F : FpuSpec) (s : FState) (l : String) :
+    (∃ s', Fp.run F (instrsOf (cmpZero ty_float ++ [ins1 "sete" (.r "%al"), ins2 "movzx" (.r "%al") (.r "%rax")])) s = some s' ∧
+      s'.x.get .rax = b2bv (F.val32 (s.xmm0.setWidth 32)).isZero) ∧
+    (∃ s', Fp.run F (instrsOf (cmpZero ty_double ++ [ins1 "sete" (.r "%al"), ins2 "movzx" (.r "%al") (.r "%rax")])) s = some s' ∧
+      s'.x.get .rax = b2bv (F.val64 s.xmm0).isZero) ∧
+    (∀ b rest, s.st = b :: rest →
+      ∃ s', Fp.run F (instrsOf (cmpZero ty_ldouble ++ [ins1 "sete" (.r "%al"), ins2 "movzx" (.r "%al") (.r "%rax")])) s = some s' ∧
+        s'.x.get .rax = b2bv (F.val80 b).isZero ∧ s'.st = rest) ∧
+    (∃ s', Fp.run F (instrsOf (cmpZero ty_float)) s = some s' ∧ s'.x.flagsValid = true ∧
+      jumpOf ⟨"je", [.s l]⟩ s' = some (true, (F.val32 (s.xmm0.setWidth 32)).isZero, l) ∧
+      jumpOf ⟨"jne", [.s l]⟩ s' = some (true, !(F.val32 (s.xmm0.setWidth 32)).isZero, l)) ∧
+    (∃ s', Fp.run F (instrsOf (cmpZero ty_double)) s = some s' ∧ s'.x.flagsValid = true ∧
+      jumpOf ⟨"je", [.s l]⟩ s' = some (true, (F.val64 s.xmm0).isZero, l) ∧
+      jumpOf ⟨"jne", [.s l]⟩ s' = some (true, !(F.val64 s.xmm0).isZero, l)) ∧
+    (∀ b rest, s.st = b :: rest →
+      ∃ s', Fp.run F (instrsOf (cmpZero ty_ldouble)) s = some s' ∧ s'.x.flagsValid = true ∧ s'.st = rest ∧
+        jumpOf ⟨"je", [.s l]⟩ s' = some (true, (F.val80 b).isZero, l) ∧
+        jumpOf ⟨"jne", [.s l]⟩ s' = some (true, !(F.val80 b).isZero, l)) := by
+  refine ⟨?_, ?_, ?_, ?_, ?_, ?_⟩
+  · obtain ⟨s', h1, h2, _⟩ := not_f32 F s; exact ⟨s', h1, h2⟩
+  · obtain ⟨s', h1, h2, _⟩ := not_f64 F s; exact ⟨s', h1, h2⟩
+  · intro b rest h
+    obtain ⟨s', h1, h2, h3, _⟩ := not_f80 F s b rest h; exact ⟨s', h1, h2, h3⟩
+  · obtain ⟨s', h1, h2, h3, h4, _⟩ := branch_f32 F s l; exact ⟨s', h1, h4, h2, h3⟩
+  · obtain ⟨s', h1, h2, h3, h4, _⟩ := branch_f64 F s l; exact ⟨s', h1, h4, h2, h3⟩
+  · intro b rest h
+    obtain ⟨s', h1, h2, h3, h4, h5, _⟩ := branch_f80 F s l b rest h; exact ⟨s', h1, h4, h5, h2, h3⟩
+
+/-! ## conversions -/
+
+/-- the full statement: for **every** pair of arithmetic types with a floating side, every operand value and every machine
+    state, the instructions `cast(from, to)` prints (cell of the generated cast table, or the `_Bool` sequence) turn a
+    representation of `x` into a representation of the C11 conversion of `x` (when that is defined), restore the x87
+    control word, leave the x87 stack below the operand and %rsp unchanged.  **It is false** (Findings/C02.lean). -/
+def C02_select_Statement : Prop :=
+  ∀ (F : FpuSpec) (frm to : ATy) (s : FState) (x y : AVal),
+    (frm.isFp = true ∨ to.isFp = true) → Holds frm s x → convert F s.cw to x = some y →
+    ∃ s', Fp.run F (castSeq frm to) s = some s' ∧ Holds to s' y ∧ s'.cw = s.cw ∧ stBelow to s' = stBelow frm s ∧
+      s'.x.get .rsp = s.x.get .rsp
+
+/-- **C02 (selection).**  `C02_select_Statement` outside the regions `inKnownRegion` (unsigned long → floating at ≥ 2^63;
+    floating → unsigned long with integral part ≥ 2^63): 63 cells × all values.  E.g. double → unsigned int goes through
+    `cvttsd2siq` and the low 32 bits and is right for every x with 0 ≤ trunc x < 2^32; signed char / short targets are
+    re-extended from the right width; int → long double goes through a 4-byte slot read by `fildl`, unsigned int is
+    zero-extended first and read by `fildll`; long double → integer stores with `fistps/l/q` of the right width under a
+    control word with RC = 11b and reloads with the right extension; `_Bool` targets test against zero with NaN true. -/
+theorem C02_select_partial (F : FpuSpec) (frm to : ATy) (s : FState) (x y : AVal)
+    (hfp : frm.isFp = true ∨ to.isFp = true) (hh : Holds frm s x) (hc : convert F s.cw to x = some y)
+    (hreg : inKnownRegion F frm to x = false) :
+    ∃ s', Fp.run F (castSeq frm to) s = some s' ∧ Holds to s' y ∧ s'.cw = s.cw ∧ stBelow to s' = stBelow frm s ∧
+      s'.x.get .rsp = s.x.get .rsp :=
+  select_partial F frm to s x y hfp hh hc hreg
+
+/-- non-vacuity: the contract is satisfiable, and on the toy FPU the hypotheses hold for (double) of the unsigned int
+    4000000000 (above 2^31: the zero extension matters) sitting in %eax with garbage above -/
+example : ∃ (F : FpuSpec) (s : FState) (y : AVal),
+    Holds (.int .u32) s (.int 4000000000) ∧ convert F s.cw .f64 (.int 4000000000) = some y ∧
+    inKnownRegion F (.int .u32) .f64 (.int 4000000000) = false :=
+  ⟨Toy.toy, ⟨{ regs := fun _ => 0xdeadbeefee6b2800#64, mem := fun _ => 0 }, 0, 0, [], 0x37f#16⟩, _,
+    by simp [Holds, RInt, ITy.inRange, ITy.min, ITy.max, ITy.signed, ITy.bits, State.get], rfl, rfl⟩
+
+/-! ## the two branchy cells at ≥ 2^63 -/
+
+/-- **C02 (unsigned long → long double, top bit set), machine level.**  `fildq` reads the pattern as the negative number
+    v − 2^64; the float constant 0x5F800000 (2^64) is then added in extended precision. -/
+theorem C02_u64f80_machine (F : FpuSpec) (s : FState) (h : (s.x.get .rax).msb = true) :
+    ∃ s', Fp.run F (castSeq (.int .u64) .f80) s = some s' ∧
+      s'.st = F.fadd s.cw (F.ofInt80 ((s.x.get .rax).toNat - 18446744073709551616)) (F.fld32 1602224128#32) :: s.st ∧
+      s'.cw = s.cw ∧ s'.x.get .rsp = s.x.get .rsp := by
+  obtain ⟨s', h1, h2, h3, h4⟩ := eff_u64f80_neg F s h
+  refine ⟨s', h1, ?_, h3, h4⟩
+  rw [h2, F.fild64_spec]
+  congr 3
+  rw [BitVec.toInt_eq_toNat_cond]
+  have := (BitVec.msb_eq_decide (s.x.get .rax)).symm.trans h
+  simp at this
+  split <;> omega
+
+/-! ## floating constants -/
+
+/-- **C02 (constants).**  `ND_NUM` of type float / double / long double whose value is the long double `fval` (what `strtold`
+    returned, as held by the compiler): the immediates printed are the bit pattern of `(float)fval` / `(double)fval` /
+    `fval` (the union punning, with `hostCw` the compiler's own x87 control word), and executing them leaves exactly that
+    datum where a value of the node's type lives — for every `fval`, i.e. the C11 conversion of `fval` to the node's type. -/
+theorem C02_const (F : FpuSpec) (hostCw : BitVec 16) (fval : BitVec 80) (s : FState) :
+    (∃ s' y, convert F hostCw .f32 (.f80 fval) = some y ∧
+      Fp.run F (instrsOf (numF32 (F.fst32 hostCw fval))) s = some s' ∧ Holds .f32 s' y ∧ s'.st = s.st ∧ s'.cw = s.cw) ∧
+    (∃ s' y, convert F hostCw .f64 (.f80 fval) = some y ∧
+      Fp.run F (instrsOf (numF64 (F.fst64 hostCw fval))) s = some s' ∧ Holds .f64 s' y ∧ s'.st = s.st ∧ s'.cw = s.cw) ∧
+    (∃ s', Fp.run F (instrsOf (numF80 fval)) s = some s' ∧ Holds .f80 s' (.f80 fval) ∧ s'.st = fval :: s.st ∧ s'.cw = s.cw) := by
+  refine ⟨?_, ?_, ?_⟩
+  · obtain ⟨s', h1, h2, h3, h4, _⟩ := num_f32 F (F.fst32 hostCw fval) s
+    exact ⟨s', _, rfl, h1, h2, h3, h4⟩
+  · obtain ⟨s', h1, h2, h3, h4, _⟩ := num_f64 F (F.fst64 hostCw fval) s
+    exact ⟨s', _, rfl, h1, h2, h3, h4⟩
+  · obtain ⟨s', h1, h2, h3, _⟩ := num_f80 F fval s
+    exact ⟨s', h1, ⟨s.st, h2⟩, h2, h3⟩
+
 end ChibiVerif.Props.C02
